@@ -125,6 +125,51 @@ class C01Oracle(Oracle):
                                 len(inc)))
 
 
+PROBING = ("PADDING", "PATH_CHALLENGE", "PATH_RESPONSE", "NEW_CONNECTION_ID")
+
+
+class PathExpectation(Oracle):
+    """No verdict of its own: tells the simulated NAT where RFC 9000 9.3 expects the server to send (source of
+    the highest-numbered non-probing 1-RTT packet delivered to it), so that in the fair phase a former mapping
+    is revived only for a server that cannot know better (profile key strict_heal)."""
+
+    def on_start(self, sim):
+        self.sim = sim
+        self.highest = -1
+        self.cands = []
+
+    def on_datagram_delivered(self, ep, dgram, copy_index):
+        if ep.is_client or dgram.sender != "client":
+            return
+        for p in dgram.meta or []:
+            if p.opaque or p.pn is None or p.space != "app" or p.ptype != "1rtt":
+                continue
+            if all(f.name in PROBING for f in p.frames):
+                continue
+            if p.pn > self.highest:
+                self.cands.append((p.pn, dgram.src))
+
+    def after_step(self):
+        # delivered is not processed (a packet of the previous key phase is undecryptable for a server that
+        # has just updated its keys): count a packet once the server's receive state shows it
+        if not self.cands:
+            return
+        conn = self.sim.server.conn
+        cands, self.cands = self.cands, []
+        if conn is None:
+            return
+        try:
+            from aioquic import tls
+
+            space = conn._spaces[tls.Epoch.ONE_RTT]
+        except Exception:
+            return
+        for pn, src in cands:
+            if pn > self.highest and pn in space.ack_queue:
+                self.highest = pn
+                self.sim.net.expected_client_addr = src
+
+
 PROFILES = {
     "faulty": {"faults": ("drop", "dup", "delay", "blackout", "rebind", "timer-late", "clock"), "retry_p": 0.15,
                "allow_vn": True},
@@ -143,11 +188,14 @@ def run_one(seed, tier="quick", variant=None, replay=None):
     oracles = [oracle]
     import os
 
-    if os.environ.get("VERIF_TRACE"):  # debugging aid: decode the wire into the trace
+    if os.environ.get("VERIF_TRACE") or profile.get("strict_heal"):
+        # the wire decoder: a debugging aid in general, needed by PathExpectation
         from sim.monitor import WireMonitor
 
         profile["secrets_log"] = True
         oracles.insert(0, WireMonitor())
+        if profile.get("strict_heal"):
+            oracles.insert(1, PathExpectation())
     sim = TransportSim(ch, profile, oracles)
     out = Outcome(seed)
     try:
